@@ -584,13 +584,37 @@ class Program:
         return None
 
 
+WIDE_HEADER_DIRS = ('upipe', 'upipe-modules', 'upipe-framers', 'upipe-ts')
+
+
+def have_stubs():
+    return os.path.isdir(os.path.join(VERIF, 'stubs', 'bitstream'))
+
+
+def load_with_stubs(units, stub_units, repo=None, tolerate=True):
+    """units parsed with the build's flags plus stub_units (lib/upipe-ts,
+    lib/upipe-framers) parsed against /verif/stubs; the header unit then
+    covers the headers of those libraries too (their inline functions are
+    summarised, not assumed)."""
+    repo = repo or REPO
+    if not stub_units or not have_stubs():
+        return load_program(units, repo=repo, tolerate=tolerate)
+    prog = load_program(units, repo=repo, tolerate=tolerate, with_headers=False)
+    sprog = load_program(stub_units, repo=repo, stubs=True, tolerate=tolerate,
+                         header_dirs=WIDE_HEADER_DIRS, header_name='all_headers_wide.c')
+    prog.units.update(sprog.units)
+    prog.failed.update(sprog.failed)
+    prog.hdr = sprog.hdr
+    return prog
+
+
 def load_program(units, repo=None, stubs=False, header_dirs=('upipe',),
-                 tolerate=False, with_headers=True):
+                 tolerate=False, with_headers=True, header_name='all_headers.c'):
     repo = repo or REPO
     jobs = list(units)
     hdrpath = None
     if with_headers:
-        hdrpath = write_headers_unit(repo, header_dirs)
+        hdrpath = write_headers_unit(repo, header_dirs, name=header_name)
         jobs.append(('hdr', hdrpath))
     res, failed = extract(jobs, repo=repo, stubs=stubs, tolerate=tolerate)
     if with_headers and 'hdr' not in res:
@@ -602,4 +626,5 @@ def load_program(units, repo=None, stubs=False, header_dirs=('upipe',),
     if with_headers:
         prog.hdr = Unit(res['hdr'], 'headers')
     prog.failed = failed
+    prog.stubbed = bool(stubs)
     return prog
